@@ -206,6 +206,8 @@ pub fn flat_blocks(bs: &[liwe::model::document::DocumentBlock], out: &mut String
 }
 
 pub struct FlatCmp {
+    /// C07.reader_outline: top-level heading levels — (model's `levelsEv`, harness' own from the parser's events, from the real reader's blocks)
+    pub levels: (Vec<u32>, Vec<u32>, Vec<u32>),
     pub grammar: String,
     pub html_free: bool,
     /// statement of `C01.reader_content` on the implementation: flat(real blocks) = flat(real events); None = not applicable
@@ -214,6 +216,26 @@ pub struct FlatCmp {
     pub model_events_agree: bool,
     pub model_blocks_agree: Option<bool>,
     pub detail: String,
+}
+
+/// heading levels the parser reports while nothing else is open (own pass over the events)
+pub fn top_heading_levels(text: &str) -> Vec<u32> {
+    let (mut depth, mut out) = (0usize, vec![]);
+    for ev in Parser::new_ext(text, md::options()) {
+        match ev {
+            Event::Start(Tag::Heading { level, .. }) => {
+                if depth == 0 {
+                    out.push(level as u32);
+                }
+                depth += 1;
+            }
+            Event::Start(Tag::MetadataBlock(_)) | Event::End(TagEnd::MetadataBlock(_)) => {}
+            Event::Start(_) => depth += 1,
+            Event::End(_) => depth = depth.saturating_sub(1),
+            _ => {}
+        }
+    }
+    out
 }
 
 /// both sides of `C01.reader_content` for one text: from the Lean definitions (driver) and from the harness' own pass
@@ -226,7 +248,7 @@ pub fn compare_flat(model: &mut Model, text: &str) -> Option<FlatCmp> {
     let reply = model.call(&format!("(reader.read {} {})", hex(text), events_sexp(text)));
     let parts = dump::children(&reply);
     if parts.first() != Some(&"reader") || parts.len() < 4 {
-        return Some(FlatCmp { grammar: "?".into(), html_free: false, impl_holds: None, model_events_agree: false, model_blocks_agree: None, detail: format!("protocol: {}", reply.chars().take(200).collect::<String>()) });
+        return Some(FlatCmp { levels: (vec![], vec![], vec![]), grammar: "?".into(), html_free: false, impl_holds: None, model_events_agree: false, model_blocks_agree: None, detail: format!("protocol: {}", reply.chars().take(200).collect::<String>()) });
     }
     let grammar = parts[1].to_string();
     let flat = dump::children(parts[3]);
@@ -236,6 +258,9 @@ pub fn compare_flat(model: &mut Model, text: &str) -> Option<FlatCmp> {
         let c = dump::children(s);
         if c.first() == Some(&"some") { c.get(1).and_then(|h| unhex(h)) } else { None }
     });
+    let model_levels: Vec<u32> = flat.get(4).map(|s| dump::children(s)[1..].iter().filter_map(|n| n.parse().ok()).collect()).unwrap_or_default();
+    let block_levels: Vec<u32> = real.blocks.iter().filter_map(|b| if let liwe::model::document::DocumentBlock::Header(h) = b { Some(h.level as u32) } else { None }).collect();
+    let levels = (model_levels, top_heading_levels(text), block_levels);
     let applicable = grammar == "complete" && html_free && !html_text;
     let impl_holds = if applicable { Some(rb == re) } else { None };
     let detail = if impl_holds == Some(false) {
@@ -245,5 +270,5 @@ pub fn compare_flat(model: &mut Model, text: &str) -> Option<FlatCmp> {
     } else {
         String::new()
     };
-    Some(FlatCmp { grammar, html_free, impl_holds, model_events_agree: me == re && html_free != html_text, model_blocks_agree: mb.map(|m| m == rb), detail })
+    Some(FlatCmp { levels, grammar, html_free, impl_holds, model_events_agree: me == re && html_free != html_text, model_blocks_agree: mb.map(|m| m == rb), detail })
 }
